@@ -249,6 +249,26 @@ def rule_n5(ctx: Ctx) -> RuleReport:
             rep.ok({"read_mhtml": f"read_html receives {src} unchanged"})
         else:
             rep.fail(Finding("C17-N5", MHTML, "read_mhtml", short(c), "the HTML part is transformed between MIME decoding and read_html (a rewrite that knows nothing of raw-text elements can delete end tags and visible text)", line=c.lineno))
+    # (a') e-mail results: an HTML body becomes unit text only through the HTML-to-text conversion (an HTML-only message has no
+    # text/plain part; its markup, style sheets, scripts and comments must not be the 'text')
+    from sa.rules.common import DT as _DT
+
+    iu = ctx.p.func(_DT, "EmailContent.iterate_units")
+    rep.unit(iu.key)
+    n_html = 0
+    for c in ast.walk(iu.node):
+        if isinstance(c, ast.Call) and (dotted(c.func) or "").split(".")[-1] == "EmailUnit":
+            tv = next((k.value for k in c.keywords if k.arg == "text"), c.args[0] if c.args else None)
+            if tv is None or not any(isinstance(x, ast.Attribute) and x.attr == "body_html" for x in ast.walk(tv)):
+                continue
+            n_html += 1
+            conv = [x for x in ast.walk(tv) if isinstance(x, ast.Call) and any(g.module.rel == HTML for g in resolve_call(ctx.p, iu, x).funcs)]
+            if conv:
+                rep.ok({"EmailContent.iterate_units": f"body_html -> {short(conv[0], 40)}"})
+            else:
+                rep.fail(Finding("C17-N5", _DT, iu.qual, "raw body_html as unit text", f"`{short(c, 60)}` uses the HTML body as it stands as the text of the unit: for a message without a text/plain part get_full_text() is the markup, including style sheets, scripts and comments", line=c.lineno))
+    if n_html == 0:
+        rep.ok({"EmailContent.iterate_units": "never uses body_html as text"})
     # (b) anywhere in the module a regex substitution may only prepare base64 text for decoding
     m = ctx.p.module(MHTML)
     for fi in m.functions.values():
@@ -264,6 +284,19 @@ def rule_n5(ctx: Ctx) -> RuleReport:
     # MSG: _html_to_text feeds _HtmlTreeBuilder
     g = ctx.p.func(MSG, "_html_to_text")
     rep.unit(g.key)
+    # follow pure delegation: `return helper(<the same argument>)`
+    for _hop in range(3):
+        from sa.engine.loader import is_noise
+
+        body = [st for st in g.node.body if not is_noise(st)]
+        if len(body) == 1 and isinstance(body[0], ast.Return) and isinstance(body[0].value, ast.Call) and len(body[0].value.args) == 1 and isinstance(body[0].value.args[0], ast.Name) \
+                and body[0].value.args[0].id in {a.arg for a in g.node.args.args}:
+            tgt = resolve_call(ctx.p, g, body[0].value).funcs
+            if len(tgt) == 1:
+                g = tgt[0]
+                rep.unit(g.key)
+                continue
+        break
     builds = [c for c in calls_in(g) if (lambda t: t.klass is not None and t.klass.name == "_HtmlTreeBuilder")(resolve_call(ctx.p, g, c))]
     feeds = [c for c in calls_in(g) if isinstance(c.func, ast.Attribute) and c.func.attr == "feed"]
     if builds and feeds:
@@ -272,9 +305,9 @@ def rule_n5(ctx: Ctx) -> RuleReport:
         if isinstance(arg, ast.Name) and arg.id in params:
             rep.ok({"msg": "_html_to_text feeds its argument to _HtmlTreeBuilder unchanged"})
         else:
-            rep.fail(Finding("C17-N5", MSG, g.qual, short(feeds[0]), "the HTML body is transformed before it is fed to the parser", line=feeds[0].lineno))
+            rep.fail(Finding("C17-N5", g.module.rel, g.qual, short(feeds[0]), "the HTML body is transformed before it is fed to the parser", line=feeds[0].lineno))
     else:
-        rep.fail(Finding("C17-N5", MSG, g.qual, "_HtmlTreeBuilder", "MSG HTML bodies no longer go through _HtmlTreeBuilder", line=g.node.lineno))
+        rep.fail(Finding("C17-N5", g.module.rel, g.qual, "_HtmlTreeBuilder", "MSG HTML bodies no longer go through _HtmlTreeBuilder", line=g.node.lineno))
     return rep
 
 
